@@ -1,6 +1,6 @@
 """C04 x86-64 JIT-compiled programs behave exactly like interpreted programs."""
 import astq
-from rules import jit, sshash
+from rules import aes, jit, sshash, vmcfg
 
 LEVEL = 'other'
 TECHNIQUE = 'sibling agreement between the x86 emitters and the interpreter decoder on resolved-AST feature vectors, known-bits on branch constants, decoding of byte templates, assembled-fragment constants'
@@ -23,3 +23,6 @@ def run(ctx, R):
     jit.rule_jitmask_x86(ctx, R)
     jit.rule_cfr_x86(ctx, R, FI)
     sshash.rule_immenc(ctx, R, FI)
+    vmcfg.rule_asm_mp(ctx, R)
+    vmcfg.rule_v2gates(ctx, R, FI)
+    aes.rule_asm(ctx, R, FI)
